@@ -1583,3 +1583,32 @@ Lemma example_two_connections :
   map (fun w => (w_rid w, w_ps w)) (writes (proj_obs 0 (gtrace (map init mss) s))) = [(0x8001, 0)] /\
   map (fun w => (w_rid w, w_ps w)) (writes (proj_obs 1 (gtrace (map init mss) s))) = [(0x8800, 0)].
 Proof. repeat split; vm_compute; reflexivity. Qed.
+
+(* ------------------------------------------------------------------------------------------ *)
+(* A transfer of ONE package (fragment bit set, total 1, number 1) counts once                *)
+(* ------------------------------------------------------------------------------------------ *)
+(* The statements of this file are about the delivered list, whatever it is; what packageParse.parse
+   delivers for a sub-packaged message is Model/Subpkg.v (C05; composed with the reader loop in
+   Props/C05.v C05_handlers_see_exactly_one, whose `bodies <> []` includes the one-element list).
+   Here the smallest case is run through both models: a 0x0200 sent as a transfer of one package,
+   then a heartbeat.  parse delivers the packet (total 1: NOT complete by itself - hasComplete is
+   `SubPackageSum == 0 || SubcontractComplete`) and, right after it, the completed message; the
+   connection answers once (0x8001, platform serial 0) and the heartbeat gets serial 1. *)
+From JT.Model Require Subpkg SubpkgHandlers.
+
+Definition ex_one_pkt : msg :=
+  {| m_id := 0x0200; m_len := 3; m_enc := 0; m_frag := 1; m_ver := 0; m_bcd := [1; 56; 0; 19; 128; 0];
+     m_serial := 9; m_sum := 1; m_no := 1; m_body := [7; 8; 9]; m_check := 0 |}.
+Definition ex_hb_msg : msg :=
+  {| m_id := 0x0002; m_len := 0; m_enc := 0; m_frag := 0; m_ver := 0; m_bcd := [1; 56; 0; 19; 128; 0];
+     m_serial := 10; m_sum := 0; m_no := 0; m_body := []; m_check := 0 |}.
+
+Lemma example_one_package_transfer :
+  let ds := map SubpkgHandlers.dmsg_of (snd (Subpkg.cp_loop 0 [] [([], ex_one_pkt); ([], ex_hb_msg)])) in
+  map (fun d => (m_id (d_m d), m_sum (d_m d), d_complete d, has_complete d, answered d)) ds =
+    [(0x0200, 1, false, false, false); (0x0200, 1, true, true, true); (0x0002, 0, false, true, true)] /\
+  map (fun d => m_body (d_m d)) ds = [[7; 8; 9]; [7; 8; 9]; []] /\
+  map (fun w => (w_rid w, w_ps w, w_body w)) (writes (run ds)) =
+    [(0x8001, 0, [0; 9; 2; 0; 0]); (0x8001, 1, [0; 10; 0; 2; 0])] /\
+  length (read_srcs (run ds)) = 2%nat.
+Proof. vm_compute. repeat split; reflexivity. Qed.
